@@ -1,6 +1,7 @@
 import SuxModel.Base.Proto
 import SuxModel.BitVec.Runner
 import SuxModel.BitFieldVec.Runner
+import SuxModel.RankSel.Runner
 /-!
 # `suxdrv <runner>` : line-protocol driver over the executable model definitions
 -/
@@ -18,7 +19,8 @@ partial def loop (h : IO.FS.Stream) (out : IO.FS.Stream) (R : Runner) (s : R.σ)
 
 def runners : List (String × Runner) := [
   ("bitvec", Sux.BV.runner),
-  ("bfv", Sux.BFV.runner)
+  ("bfv", Sux.BFV.runner),
+  ("ranksel", Sux.RS.runner)
 ]
 
 def main (args : List String) : IO UInt32 := do
